@@ -191,21 +191,32 @@ def run (g : Agenda) : List Op → Agenda
 
 /-! ### The three fire loops -/
 
-/-- `IncrementalEngine::fire_all` skeleton, for an arbitrary engine state `σ`:
-`pop` = `self.agenda.get_next_activation()`, `body` = everything done with one activation (it may add any
-activations and returns the rule name when the rule was executed).  `fuel` = iterations still allowed
-(`max_iterations - iteration_count`): the pop that exceeds the bound is consumed and the loop breaks. -/
-def incLoop {σ : Type} (pop : σ → Option Act × σ) (body : σ → Act → σ × Option Nat) :
+/-- the skipping steps of `IncrementalEngine::fire_all` [after fix-C06b]: `pop` = `self.agenda.get_next_activation()`,
+`skip s a` = the tests that `continue` (rule unknown, matched fact retracted, re-validation false): the activation is dropped and
+nothing else happens.  These steps are not counted against `max_iterations`; they end because every pop removes an
+activation — the fuel of this inner loop is that termination measure (`size s` pending activations, see `incSkip_fuel`). -/
+def incSkip {σ : Type} (pop : σ → Option Act × σ) (skip : σ → Act → Bool) : Nat → σ → Option Act × σ
+  | 0, s => (none, (pop s).2)
+  | k + 1, s =>
+    match pop s with
+    | (none, s') => (none, s')
+    | (some a, s') => if skip s' a then incSkip pop skip k s' else (some a, s')
+
+/-- `IncrementalEngine::fire_all` skeleton, for an arbitrary engine state `σ`: skip to the next activation that passes the
+tests; `body` = execution of that activation (it may add any activations; returns the rule name).  `fuel` = executions still
+allowed (`max_iterations - iteration_count`): only executed activations are counted; the valid activation that exceeds the
+bound is consumed and the loop breaks. -/
+def incLoop {σ : Type} (pop : σ → Option Act × σ) (skip : σ → Act → Bool) (size : σ → Nat) (body : σ → Act → σ × Nat) :
     Nat → σ → List Nat → σ × List Nat
   | fuel, s, out =>
-    match pop s with
+    match incSkip pop skip (size s) s with
     | (none, s') => (s', out)
     | (some a, s') =>
       match fuel with
       | 0 => (s', out)
       | n + 1 =>
         let r := body s' a
-        incLoop pop body n r.1 (match r.2 with | some x => out ++ [x] | none => out)
+        incLoop pop skip size body n r.1 (out ++ [r.2])
 
 def incBound : Nat := 1000
 def ulBound : Nat := 100
@@ -351,10 +362,12 @@ def incPop (e : Inc) : Option Act × Inc := (e.ag.getNext.1, { e with ag := e.ag
 
 /-- body of the loop for a no-op action: the matched fact is live, nothing changes, `propagate_changes`
 re-creates every match (skipping no-loop rules that already fired), then the rule is marked fired -/
-def incBody (e : Inc) (a : Act) : Inc × Option Nat :=
+def incBody (e : Inc) (a : Act) : Inc × Nat :=
   let r := incAddMatches true (enumFrom 0 e.rules) e.facts e.ag e.clock
-  ({ e with ag := r.1.mark a, clock := r.2 }, some a.rule)
+  ({ e with ag := r.1.mark a, clock := r.2 }, a.rule)
 
-def Inc.fireAll (e : Inc) : Inc × List Nat := incLoop incPop incBody incBound e []
+/-- no fact is ever retracted or changed in these cases: no activation is skipped -/
+def Inc.fireAll (e : Inc) : Inc × List Nat :=
+  incLoop incPop (fun _ _ => false) (fun e => e.ag.acts.length) incBody incBound e []
 
 end C07
